@@ -25,6 +25,13 @@ type opdT struct {
 	Cols int              `json:"cols"`
 	C    [][2]int         `json:"c"`
 	Reps map[string][]int `json:"reps"` // storage kind -> stored positions (1-based)
+	F    []int            `json:"f"`    // special records: IEEE class per element (0 finite, 1 +Inf, 2 -Inf, 3 NaN, 4 -0)
+}
+
+// symbolic integer relative to a bound of the element type (records sp = "ib")
+type symT struct {
+	B string `json:"b"` // "min", "zero", "max"
+	O int    `json:"o"`
 }
 
 type expT struct {
@@ -34,11 +41,12 @@ type expT struct {
 }
 
 type sexpT struct {
-	T    string          `json:"t"` // "v" value, "i" int result, "b" boolean, "term" symbolic term
+	T    string          `json:"t"` // "v"/"x" value (class f), "i" int result, "b" boolean, "term" symbolic term, "sym", "any"
 	V    int             `json:"v"`
 	F    int             `json:"f"`
 	B    bool            `json:"b"`
 	Term json.RawMessage `json:"term"`
+	Sym  *symT           `json:"sym"`
 }
 
 type rec struct {
@@ -54,6 +62,15 @@ type rec struct {
 	X    int    `json:"x"`
 	Y    int    `json:"y"`
 	Sexp *sexpT `json:"sexp"`
+	// special operands (C09): sp = "fs" float specials, "ib" integer bounds
+	Sp string `json:"sp"`
+	Sf int    `json:"sf"` // class of the scalar operand of a container record
+	Xx [3]int `json:"xx"` // extended scalar operands [v, 0, class]
+	Yy [3]int `json:"yy"`
+	Xo *int   `json:"xo"` // derivative orders of the operands for the magic types
+	Yo *int   `json:"yo"`
+	Xb *symT  `json:"xb"`
+	Yb *symT  `json:"yb"`
 }
 
 // ---- building real objects with a prescribed representation ---------------
@@ -96,18 +113,53 @@ func (t *elemType) elem(v, d int) Scalar {
 	return s
 }
 
+// classValue maps an IEEE class code of the specification to a float64
+func classValue(v int, f int) float64 {
+	switch f {
+	case 1:
+		return math.Inf(1)
+	case 2:
+		return math.Inf(-1)
+	case 3:
+		return math.NaN()
+	case 4:
+		return math.Copysign(0, -1)
+	}
+	return float64(v)
+}
+
+// elemX builds a scalar holding an extended element (no derivatives)
+func (t *elemType) elemX(v, d, f int) Scalar {
+	if f == 0 {
+		return t.elem(v, d)
+	}
+	return NewScalar(t.st, classValue(v, f))
+}
+
 func isDense(k string) bool { return k == "d" }
 
 // build creates the container with the storage kind k, the content c and the
 // explicitly stored positions st (1-based; relevant for sparse kinds only).
 func (t *elemType) build(k string, rows, cols int, c [][2]int, st []int, constImpl bool) cont {
+	return t.buildX(k, rows, cols, c, nil, st, constImpl)
+}
+
+// buildX: like build, with an IEEE class per element (f == nil: all finite)
+func (t *elemType) buildX(k string, rows, cols int, c [][2]int, f []int, st []int, constImpl bool) cont {
+	cl := func(i int) int {
+		if f == nil {
+			return 0
+		}
+		return f[i]
+	}
+	nz := func(i int) bool { return c[i] != [2]int{0, 0} || cl(i) != 0 }
 	if cols < 0 {
 		n := rows
 		if isDense(k) {
 			v := NullDenseVector(t.st, n)
 			for i := 0; i < n; i++ {
-				if c[i] != [2]int{0, 0} {
-					v.At(i).Set(t.elem(c[i][0], c[i][1]))
+				if nz(i) {
+					v.At(i).Set(t.elemX(c[i][0], c[i][1], cl(i)))
 				}
 			}
 			return cont{vec: v}
@@ -116,9 +168,9 @@ func (t *elemType) build(k string, rows, cols int, c [][2]int, st []int, constIm
 			idx := []int{}
 			vals := []float64{}
 			for i := 0; i < n; i++ {
-				if c[i][0] != 0 {
+				if c[i][0] != 0 || (cl(i) != 0 && cl(i) != 4) {
 					idx = append(idx, i)
-					vals = append(vals, float64(c[i][0]))
+					vals = append(vals, classValue(c[i][0], cl(i)))
 				}
 			}
 			return cont{cvec: t.newConstVec(idx, vals, n)}
@@ -126,8 +178,8 @@ func (t *elemType) build(k string, rows, cols int, c [][2]int, st []int, constIm
 		v := NullSparseVector(t.st, n)
 		for _, p := range st {
 			s := v.At(p - 1) // creates the entry: an explicitly stored zero unless set below
-			if c[p-1] != [2]int{0, 0} {
-				s.Set(t.elem(c[p-1][0], c[p-1][1]))
+			if nz(p - 1) {
+				s.Set(t.elemX(c[p-1][0], c[p-1][1], cl(p-1)))
 			}
 		}
 		return cont{vec: v}
@@ -136,8 +188,8 @@ func (t *elemType) build(k string, rows, cols int, c [][2]int, st []int, constIm
 	if isDense(k) {
 		m = NullDenseMatrix(t.st, rows, cols)
 		for x := 0; x < rows*cols; x++ {
-			if c[x] != [2]int{0, 0} {
-				m.At(x/cols, x%cols).Set(t.elem(c[x][0], c[x][1]))
+			if nz(x) {
+				m.At(x/cols, x%cols).Set(t.elemX(c[x][0], c[x][1], cl(x)))
 			}
 		}
 	} else {
@@ -145,8 +197,8 @@ func (t *elemType) build(k string, rows, cols int, c [][2]int, st []int, constIm
 		for _, p := range st {
 			x := p - 1
 			s := m.At(x/cols, x%cols)
-			if c[x] != [2]int{0, 0} {
-				s.Set(t.elem(c[x][0], c[x][1]))
+			if nz(x) {
+				s.Set(t.elemX(c[x][0], c[x][1], cl(x)))
 			}
 		}
 	}
@@ -204,6 +256,13 @@ func project(c cont) []obsElem {
 // what: "" ok, "value", "deriv"
 func elemOK(t *elemType, e [3]int, o obsElem) string {
 	switch e[2] {
+	case 5:
+		return "" // unconstrained by IEEE arithmetic alone
+	case 4:
+		if o.V != 0 {
+			return "value"
+		}
+		return ""
 	case 1:
 		if !math.IsInf(o.V, 1) {
 			return "value"
